@@ -587,23 +587,47 @@ func c01R6(c *Ctx, r *Report) {
 		// every return inside the loop whose result is not an error built by fmt.Errorf / a received report error
 		// must be reachable only across !(reportCnt < execCnt) and !(waiting > 0).
 		// We identify the two comparisons structurally: a signed int LSS between two phi counters, and GTR of a phi with const 0.
-		pendingGuard := Guard{Name: "not(reportCnt < execCnt)", Truthy: false, Match: func(b ssa.Value) bool {
-			bo, ok := b.(*ssa.BinOp)
-			if !ok || (bo.Op != token.LSS && bo.Op != token.GTR) {
+		// execCnt is the counter incremented next to the launch of a routine; the other counter it is compared with counts reports
+		isExec := func(v ssa.Value) bool {
+			ph, ok := v.(*ssa.Phi)
+			if !ok || !isIntCounter(v) {
 				return false
 			}
-			_, xc := bo.X.(*ssa.Const)
-			_, yc := bo.Y.(*ssa.Const)
-			return !xc && !yc && isIntCounter(bo.X) && isIntCounter(bo.Y)
-		}}
-		waitingGuard := Guard{Name: "not(waiting > 0)", Truthy: false, Match: func(b ssa.Value) bool {
-			bo, ok := b.(*ssa.BinOp)
-			if !ok || bo.Op != token.GTR {
-				return false
+			for _, e := range ph.Edges {
+				if bo, ok := e.(*ssa.BinOp); ok && bo.Op == token.ADD {
+					launch := false
+					for _, in := range bo.Block().Instrs {
+						if ci, ok := in.(ssa.CallInstruction); ok {
+							switch calleeName(ci.Common()) {
+							case "modules.Module.prep", "modules.Module.start", "modules.Module.stop":
+								launch = true
+							}
+						}
+					}
+					if launch {
+						return true
+					}
+				}
+				if ph2, ok := e.(*ssa.Phi); ok && ph2 != ph {
+					for _, e2 := range ph2.Edges {
+						if bo, ok := e2.(*ssa.BinOp); ok && bo.Op == token.ADD {
+							for _, in := range bo.Block().Instrs {
+								if ci, ok := in.(ssa.CallInstruction); ok {
+									switch calleeName(ci.Common()) {
+									case "modules.Module.prep", "modules.Module.start", "modules.Module.stop":
+										return true
+									}
+								}
+							}
+						}
+					}
+				}
 			}
-			v, isC := constInt(bo.Y)
-			return isC && v == 0 && isIntCounter(bo.X)
-		}}
+			return false
+		}
+		isReport := func(v ssa.Value) bool { return isIntCounter(v) && !isExec(v) }
+		pendingGuards := relGuards("not(reportCnt < execCnt)", isReport, isExec, func(rep, exec int64) bool { return rep >= exec })
+		waitingGuards := cmpGuards("not(waiting > 0)", func(v ssa.Value) bool { return isIntCounter(v) && !isExec(v) }, func(x int64) bool { return x <= 0 }, 0)
 		k := 0
 		kAny := 0
 		eachInstr(fn, func(in ssa.Instruction) {
@@ -615,7 +639,7 @@ func c01R6(c *Ctx, r *Report) {
 				// the shutdown pass must not be left - with or without an error - while stop
 				// routines it launched are still unreported: a failed stop does not excuse the others.
 				kAny++
-				c.RequireGuards(r, rule, fmt.Sprintf("%s / return #%d leaves no launched stop unreported", name, kAny), fn, ret, pendingGuard)
+				c.RequireAny(r, rule, fmt.Sprintf("%s / return #%d leaves no launched stop unreported", name, kAny), fn, ret, "not(reportCnt < execCnt)", pendingGuards)
 			}
 			v := retVal(ret, 0)
 			// success-like returns: nil constant, or a variable (lastErr) - not a fresh fmt.Errorf / rep.err
@@ -631,7 +655,8 @@ func c01R6(c *Ctx, r *Report) {
 				return
 			}
 			k++
-			c.RequireGuards(r, rule, fmt.Sprintf("%s / success return #%d", name, k), fn, ret, pendingGuard, waitingGuard)
+			c.RequireAny(r, rule, fmt.Sprintf("%s / success return #%d", name, k), fn, ret, "not(reportCnt < execCnt)", pendingGuards)
+			c.RequireAny(r, rule, fmt.Sprintf("%s / success return #%d", name, k), fn, ret, "not(waiting > 0)", waitingGuards)
 		})
 		if k == 0 {
 			r.Undecided(rule, name, "no success return found")
